@@ -146,8 +146,9 @@ def run(check, an: Analysis):
                                path=rules.path_lines(path, index))
     check.instance('K', 'scale-store:both-branches', n_scale >= 2, where_fn(throttle.fn),
                    'the scale is set on the congested and on the relaxed branch')
+    replanners = rules.private_closure(an, PIPE, ['_throttle_subscribers'])
     for fn2, stmt, target, recvs in rules.attribute_stores(an, '_throughput_scale', PIPE):
-        ok = fn2.name in ('__init__', '_throttle_subscribers')
+        ok = fn2.name == '__init__' or fn2.name in replanners
         check.instance('K', 'writer:_throughput_scale:%s' % short(fn2.qn), ok,
                        '%s:%d' % (fn2.module.relpath, stmt.lineno),
                        'only _throttle_subscribers changes the scale', nontrivial=False)
